@@ -90,6 +90,45 @@ def checkFun (vars : List Nat) (r : BDD) (spec : Asg → Bool) (what : String) :
   | none => none
   | some m => some s!"{what}: under {showAsg vars m} the returned diagram is {eval r (asgOf vars m)} but the specification says {spec (asgOf vars m)}"
 
+/-! ### many variables: a failing assignment is looked for along a path of a diagram built with the model's own
+operations (`and`, `not`), and then CHECKED by evaluating the diagrams in question at that one assignment — so a
+report is a genuine counterexample whatever the helper did; below `smallVars` variables every assignment is tried. -/
+
+def smallVars : Nat := 14
+
+/-- a path to the true leaf -/
+def satPath : BDD → Option (List (Nat × Bool))
+  | .T => some []
+  | .F => none
+  | .node t v f =>
+    match satPath t with
+    | some p => some ((v, true) :: p)
+    | none => (satPath f).map ((v, false) :: ·)
+
+def maskOfPath (vars : List Nat) (p : List (Nat × Bool)) : Nat :=
+  (vars.zipIdx).foldl (fun acc (v, i) => if p.any (fun q => q.1 == v && q.2) then acc ||| (1 <<< i) else acc) 0
+
+/-- an assignment over `vars` on which `a` holds and `b` does not -/
+def findNotImpl (vars : List Nat) (a b : BDD) : Option Nat :=
+  if vars.length ≤ smallVars then findAsg vars (fun σ => !(eval a σ) || eval b σ) else
+  match satPath (BDD.and a (BDD.not b)) with
+  | none => none
+  | some p =>
+    let m := maskOfPath vars p
+    if eval a (asgOf vars m) && !(eval b (asgOf vars m)) then some m else none
+
+/-- an assignment over `vars` satisfying `a` -/
+def findSat (vars : List Nat) (a : BDD) : Option Nat :=
+  if vars.length ≤ smallVars then findAsg vars (fun σ => !(eval a σ)) else
+  match satPath a with
+  | none => none
+  | some p => let m := maskOfPath vars p; if eval a (asgOf vars m) then some m else none
+
+/-- an assignment over `vars` on which the two diagrams differ -/
+def findDiff (vars : List Nat) (a b : BDD) : Option Nat :=
+  orElseN (findNotImpl vars a b) (findNotImpl vars b a)
+where orElseN (x y : Option Nat) : Option Nat := match x with | some v => some v | none => y
+
 def orElse (a b : Option String) : Option String :=
   match a with
   | some x => some x
